@@ -271,6 +271,9 @@ pub struct World {
     slice_pos: usize,
     /// Statistics of the last settle: (rounds, paused rounds).
     pub last_rounds: (u32, u32),
+    /// How often a block contained a transaction shared with another fork together with a
+    /// spender of one of its outputs.
+    pub shared_tx_spent_in_block: u64,
 }
 
 pub type PauseObserver<'a> = &'a mut dyn FnMut(&mut World, u32);
@@ -302,6 +305,7 @@ impl World {
             slice_budgets: vec![],
             slice_pos: 0,
             last_rounds: (0, 0),
+            shared_tx_spent_in_block: 0,
         }
     }
 
@@ -386,6 +390,51 @@ impl World {
             }
         }
 
+        // Re-include a transaction that is already confirmed in a live block of another fork,
+        // if it is still valid on this chain. It goes right after the coinbase, so that the
+        // transactions generated below may spend its outputs in the same block.
+        let mut shared = false;
+        let mut shared_outputs: Vec<OutPt> = vec![];
+        if let Some(sel) = reuse {
+            let on_chain: std::collections::BTreeSet<usize> =
+                self.model.chain_to(parent).into_iter().collect();
+            let mut candidates: Vec<Transaction> = vec![];
+            for b in self.model.live.iter() {
+                if on_chain.contains(b) {
+                    continue;
+                }
+                for tx in self.model.blocks[*b].block.txdata.iter().skip(1) {
+                    let ok = tx.input.iter().all(|i| {
+                        let k = (i.previous_output.txid.to_byte_array(), i.previous_output.vout);
+                        spendable.contains_key(&k) && !created_here.contains(&k)
+                    });
+                    let dup = candidates.iter().any(|t| txid32(t) == txid32(tx));
+                    if ok && !dup && !tx.input.is_empty() {
+                        candidates.push(tx.clone());
+                    }
+                }
+            }
+            if !candidates.is_empty() {
+                let tx = candidates[pick(sel, candidates.len())].clone();
+                for i in &tx.input {
+                    spendable.remove(&(i.previous_output.txid.to_byte_array(), i.previous_output.vout));
+                }
+                let txid = txid32(&tx);
+                for (i, o) in tx.output.iter().enumerate() {
+                    if !o.script_pubkey.is_op_return() {
+                        spendable.insert(
+                            (txid, i as u32),
+                            Utx { value: o.value.to_sat(), script: o.script_pubkey.to_bytes(), height },
+                        );
+                        created_here.insert((txid, i as u32));
+                    }
+                }
+                shared_outputs = (0..tx.output.len()).map(|i| (txid, i as u32)).collect();
+                body.push(tx);
+                shared = true;
+            }
+        }
+
         for spec in txs {
             if spendable.is_empty() {
                 break;
@@ -423,6 +472,9 @@ impl World {
             if ins.iter().any(|(k, _)| created_here.contains(k)) {
                 same_block_spend = true;
             }
+            if ins.iter().any(|(k, _)| shared_outputs.contains(k)) {
+                self.shared_tx_spent_in_block += 1;
+            }
             let tx = chain::spend_tx(&inputs, outs, spec.witness, 2);
             let txid = txid32(&tx);
             for (i, o) in tx.output.iter().enumerate() {
@@ -441,35 +493,6 @@ impl World {
             body.push(tx);
         }
 
-        // Re-include a transaction that is already confirmed in a live block of another fork,
-        // if it is still valid on this chain.
-        let mut shared = false;
-        if let Some(sel) = reuse {
-            let on_chain: std::collections::BTreeSet<usize> =
-                self.model.chain_to(parent).into_iter().collect();
-            let mut candidates: Vec<Transaction> = vec![];
-            for b in self.model.live.iter() {
-                if on_chain.contains(b) {
-                    continue;
-                }
-                for tx in self.model.blocks[*b].block.txdata.iter().skip(1) {
-                    let ok = tx.input.iter().all(|i| {
-                        let k = (i.previous_output.txid.to_byte_array(), i.previous_output.vout);
-                        spendable.contains_key(&k) && !created_here.contains(&k)
-                    });
-                    let dup = body.iter().any(|t| txid32(t) == txid32(tx))
-                        || candidates.iter().any(|t| txid32(t) == txid32(tx));
-                    if ok && !dup && !tx.input.is_empty() {
-                        candidates.push(tx.clone());
-                    }
-                }
-            }
-            if !candidates.is_empty() {
-                let tx = candidates[pick(sel, candidates.len())].clone();
-                body.push(tx);
-                shared = true;
-            }
-        }
         (body, shared, same_block_spend)
     }
 
